@@ -14,14 +14,14 @@ import (
 
 // ZexRecord is one canonical exerciser record as found in the program image.
 type ZexRecord struct {
-	Ptr   uint16 `json:"ptr"`   // address of the record in the loaded image
-	Mask  uint8  `json:"mask"`  // flag mask
-	Base  string `json:"base"`  // 20 bytes hex
-	Inc   string `json:"inc"`   // 20 bytes hex
-	Shift string `json:"shift"` // 20 bytes hex
-	CRC   uint32 `json:"crc"`   // expected CRC (stored big-endian in the image)
-	Msg   string `json:"msg"`   // message with dot padding stripped
-	Raw   string `json:"raw"`   // the 65 record bytes, hex
+	Ptr    uint16 `json:"ptr"`    // address of the record in the loaded image
+	Mask   uint8  `json:"mask"`   // flag mask
+	Base   string `json:"base"`   // 20 bytes hex
+	Inc    string `json:"inc"`    // 20 bytes hex
+	Shift  string `json:"shift"`  // 20 bytes hex
+	CRC    uint32 `json:"crc"`    // expected CRC (stored big-endian in the image)
+	Msg    string `json:"msg"`    // message with dot padding stripped
+	Raw    string `json:"raw"`    // the 65 record bytes, hex
 	RawMsg string `json:"rawmsg"` // message bytes up to '$', hex
 }
 
